@@ -33,8 +33,10 @@ What is a theorem here, clause by clause:
   and restarts is established by correspondence (shadow tree) only.
 * **proofs verify only for the true answer** — `membership_proof_complete` (the proof of
   a present key names key and value and ICS23's `Calculate` maps it to the root hash,
-  for every 32-byte hash function).  Soundness (no proof of a wrong answer verifies),
-  absence proofs and the ICS23 verifier itself are NOT modelled: oracle only
+  for every 32-byte hash function) and `nonmembership_proof_neighbours` (the absence proof of
+  an absent key carries verifying existence proofs of exactly its two neighbours).  Soundness
+  (no proof of a wrong answer verifies) and the ICS23 verifier itself (spec checks, adjacency
+  of the neighbours) are NOT modelled: oracle only
   (verification through `store/types.CommitmentOp`, with mutated key / value / root /
   proof bytes and forged absence proofs).
 * **every history … version deletions** — the version bookkeeping of the unchanged code
@@ -382,6 +384,46 @@ theorem membership_proof_complete (H : Bytes → Bytes) (h32 : ∀ x, (H x).leng
   have := membershipProof_spec h32 treeVersion root key
   rw [get_refines root hw key] at this
   exact this
+
+/-- Absence proofs, for every hash function with 32-byte output: for a key the version does not
+hold, `GetNonMembershipProof` succeeds and carries the existence proofs of exactly the two
+neighbours of the key in the ordered map — the greatest key below it (none if there is none)
+and the least key above it (none if there is none) — and ICS23's `Calculate` maps each of them
+to the root hash of that version.  (That the two paths are adjacent leaves is what the ICS23
+verifier checks on top; the verifier is not modelled.) -/
+theorem nonmembership_proof_neighbours (H : Bytes → Bytes) (h32 : ∀ x, (H x).length = 32) (treeVersion : Int)
+    (root : Node) (hw : root.WF) (key : Bytes) (habs : OMap.get root.toList key = none) :
+    ∃ p, nonMembershipProof H treeVersion (some root) key = .ok p ∧ p.key = key ∧
+      (∀ (j : Nat) (hj : j < root.toList.length), j + 1 = (root.toList.filter (fun q => q.1 < key)).length →
+        (root.toList[j]).1 < key ∧ ∃ pl, p.left = some pl ∧ pl.key = (root.toList[j]).1 ∧
+          pl.value = (root.toList[j]).2 ∧ pl.calc H = St.rootHash H (treeVersion + 1) (some root)) ∧
+      ((root.toList.filter (fun q => q.1 < key)).length = 0 → p.left = none) ∧
+      (∀ (j : Nat) (hj : j < root.toList.length), j = (root.toList.filter (fun q => q.1 < key)).length →
+        key < (root.toList[j]).1 ∧ ∃ pr, p.right = some pr ∧ pr.key = (root.toList[j]).1 ∧
+          pr.value = (root.toList[j]).2 ∧ pr.calc H = St.rootHash H (treeVersion + 1) (some root)) ∧
+      ((root.toList.filter (fun q => q.1 < key)).length = root.toList.length → p.right = none) := by
+  obtain ⟨p, hp, hk, hl, hl0, hr, hr0⟩ := nonMembershipProof_spec h32 treeVersion root hw key habs
+  refine ⟨p, hp, hk, ?_, hl0, ?_, hr0⟩
+  · intro j hj hji
+    refine ⟨?_, hl j hj hji⟩
+    exact (rank_split hw.2 key j hj).1 (by omega)
+  · intro j hj hji
+    refine ⟨?_, hr j hj hji⟩
+    have hnlt : ¬ (root.toList[j]).1 < key := fun h => by
+      have := (rank_split hw.2 key j hj).2 h
+      omega
+    have hne : (root.toList[j]).1 ≠ key := by
+      intro e
+      have hmem : (key, (root.toList[j]).2) ∈ root.toList := by
+        have := List.getElem_mem hj
+        rw [← e]; exact this
+      have := OMap.get_of_mem hw.2 hmem
+      rw [habs] at this
+      cases this
+    rcases Lex.lt_trichotomy (root.toList[j]).1 key with h | h | h
+    · exact absurd h hnlt
+    · exact absurd h hne
+    · exact h
 
 /-- the hypothesis on `H` is satisfiable -/
 example : ∃ H : Bytes → Bytes, ∀ x, (H x).length = 32 := ⟨fun _ => List.replicate 32 0, by simp⟩
